@@ -31,15 +31,16 @@ impl Substitution {
     //         .join("\n")
     // }
 
-    pub fn extend(&mut self, other: Substitution) {
+    pub fn extend(&mut self, other: Substitution) -> Result<(), SubstitutionError> {
         for (_, t) in &mut self.0 {
-            t.apply(&other).unwrap(); // TODO: is the unwrap okay here?
+            t.apply(&other)?;
         }
         self.0.extend(other.0);
+        Ok(())
     }
 
     pub fn append(&mut self, v: TypeVariable, t: Type) {
-        self.extend(Substitution::single(v, t));
+        self.extend(Substitution::single(v, t)).unwrap();
     }
 }
 
